@@ -12,7 +12,8 @@ from vlib.harness import SubCheck, sut, is_err
 PROPERTY = "C17"
 LEVEL = "exploration"
 RULE = ("Cases name one of the seven functions of chempy/kinetics/integrated.py, positive rational parameters over four "
-        "decades [0.01, 100] (initial product / product feed may also be 0), major = minor*(1+q) with q >= 1/100, a time "
+        "decades [0.01, 100] (initial product / product feed may also be 0), the optional arguments (t0 and the inert P0 of "
+        "dimerization_irrev, n of binary_irrev_cstr) given explicitly with non-default values in a share of the cases, major = minor*(1+q) with q >= 1/100, a time "
         "t = tau/lambda (lambda = characteristic rate computed from the parameters, tau in [0, 8]) or a free time in "
         "[0.01, 100]; for binary_irrev_cstr the initial reactant concentration is placed on both sides of the steady "
         "state A_ss (r = rho*A_ss, rho in {1/100 .. 100}, or free).  'ode': the sympy-backend expression with symbolic "
@@ -63,6 +64,16 @@ SPECS = {
     "binary_irrev_cstr": {"args": ["k", "r", "p", "fr", "fp", "fv"], "backend": True, "out": ["A", "B"],
                           "init": ["r", "p"], "conc": ["r", "p", "fr", "fp"], "prod": ["p"]},
 }
+# optional arguments besides `backend`: given explicitly (non-default) by a share of the cases.  P0 of dimerization_irrev is
+# an inert reference argument: the documented mechanism dC/dt = -2 kf C**2 and C(t0) = initial_C hold whatever P0 is.
+OPTIONAL = {"dimerization_irrev": ["P0", "t0"], "binary_irrev_cstr": ["n"]}
+OPT_DEFAULT = {"P0": Fraction(1), "t0": Fraction(0), "n": Fraction(1)}
+
+
+def all_names(fn):
+    return SPECS[fn]["args"] + OPTIONAL.get(fn, [])
+
+
 FN_ORDER = ["dimerization_irrev", "pseudo_irrev", "pseudo_rev", "binary_irrev", "binary_rev", "unary_irrev_cstr",
             "binary_irrev_cstr"]
 
@@ -145,6 +156,7 @@ def classify(case, ctx, p, ts):
         ctx.label("n=default" if "n" not in p else "n=%s" % p["n"])
     if fn == "dimerization_irrev":
         ctx.label("t0=default" if "t0" not in p else "t0 given")
+        ctx.label("P0=default" if "P0" not in p else "P0=1 given" if p["P0"] == 1 else "P0 given")
     if "major" in p:
         q = p["major"] / p["minor"] - 1
         ctx.label("major/minor-1<=0.1" if q <= Fraction(1, 10) else "major/minor-1>0.1")
@@ -195,8 +207,12 @@ def call(fn, t, vals, backend=None, use_backend=True):
     kw = {}
     if "n" in vals:
         kw["n"] = vals["n"]
-    if "t0" in vals:
-        kw["t0"] = vals["t0"]
+    if "P0" in vals and "t0" in vals:
+        args += [vals["P0"], vals["t0"]]          # both given: positionally, in the documented order (t, kf, initial_C, P0, t0)
+    else:
+        for k in ("P0", "t0"):
+            if k in vals:
+                kw[k] = vals[k]
     if SPECS[fn]["backend"] and use_backend:
         kw["backend"] = backend
     out = f(*args, **kw)
@@ -215,8 +231,7 @@ def symbolic(fn):
     if fn in _SYM_CACHE:
         return _SYM_CACHE[fn]
     import sympy as sp
-    names = SPECS[fn]["args"] + (["n"] if fn == "binary_irrev_cstr" else []) + \
-        (["t0"] if fn == "dimerization_irrev" else [])
+    names = all_names(fn)
     t = sp.Symbol("t", real=True)
     syms = {k: sp.Symbol(k, positive=True) for k in names}
     ys = sut(call, fn, t, syms, backend=sp)
@@ -246,8 +261,8 @@ def check_ode(case, ctx):
         return
     names, f = sym
     full = dict(p)
-    full.setdefault("n", Fraction(1))
-    full.setdefault("t0", Fraction(0))
+    for k, v in OPT_DEFAULT.items():
+        full.setdefault(k, v)
     with mp.workdps(50):
         mpv = {k: mp.mpf(v.numerator) / v.denominator for k, v in full.items()}
         S = sum(abs(mpv[k]) for k in SPECS[fn]["conc"]) * (1 + (mpv["n"] if fn == "binary_irrev_cstr" else 0))
@@ -336,8 +351,7 @@ def check_symbolic(case, ctx):
     fn = case["fn"]
     ctx.label("fn:" + fn)
     ctx.nontrivial(True)
-    names = SPECS[fn]["args"] + (["n"] if fn == "binary_irrev_cstr" else []) + \
-        (["t0"] if fn == "dimerization_irrev" else [])
+    names = all_names(fn)
     t = sp.Symbol("t", real=True)
     syms = {k: sp.Symbol(k, positive=True) for k in names}
     ys = sut(call, fn, t, syms, backend=sp)
@@ -595,6 +609,8 @@ def param_sets(draw, fns=FN_ORDER):
         p["initial_C"] = draw(pos)
         if draw(st.integers(0, 3)) == 3:
             p["t0"] = draw(pos)
+        if draw(st.integers(0, 3)) >= 2:
+            p["P0"] = draw(pos)
     elif fn in ("pseudo_irrev", "pseudo_rev", "binary_irrev", "binary_rev"):
         p["kf"] = draw(pos)
         if fn.endswith("_rev"):
@@ -688,6 +704,8 @@ def integral_param_sets(draw, fns=FN_ORDER):
         p["initial_C"] = Fraction(draw(ipos))
         if draw(st.integers(0, 3)) == 3:
             p["t0"] = Fraction(draw(ipos))
+        if draw(st.integers(0, 3)) >= 2:
+            p["P0"] = Fraction(draw(ipos))
     elif fn in ("pseudo_irrev", "pseudo_rev", "binary_irrev", "binary_rev"):
         p["kf"] = Fraction(draw(ipos))
         if fn.endswith("_rev"):
